@@ -16,6 +16,8 @@ T-SEQTBL Tcb::is_seq_ok is the four-row table of RFC 9293 Table 6 as revised by 
 """
 from .. import facts as F
 from .. import symx as S
+from ..cfg import cfg
+from .. import dep
 from . import common as K
 
 PRIMS = "elvis_core::protocols::tcp::tcb::modular_cmp::"
@@ -666,3 +668,159 @@ def check_close(ctx, rule="T-FIN"):
     ctx.require(n >= 2, "%s: state-changing arms of Tcb::close not found" % rule)
     (ctx.bad if probs else ctx.ok)(rule, rule + ":Tcb::close", b.span, "; ".join(sorted(set(probs))[:3]) if probs else
         "every closing transition queues <SEQ=SND.NXT><ACK=RCV.NXT><FIN,ACK> and advances SND.NXT by one (%d arms)" % n)
+
+
+def check_receive(ctx, rule="T-RECV"):
+    """Tcb::receive as a formula over the connection state (RFC 9293 3.10.3): in ESTABLISHED, FIN-WAIT-1, FIN-WAIT-2 and
+    CLOSE-WAIT ("RECEIVEs must be satisfied by data already on hand") the call hands over the buffered text; bytes that
+    were accepted and acknowledged are otherwise never seen by the application."""
+    prog = ctx.prog()
+    b = prog.method("Tcb", "receive")
+    try:
+        t, _ = S.extract(prog, b, effects=True)
+    except S.Unsupported as e:
+        ctx.require(False, "%s: cannot extract Tcb::receive (%s)" % (rule, e))
+    SELF = S.params_of(b)[0]
+    st = prog.adt("tcp::tcb::state::State")
+    disc = {v["name"]: int(v["discr"]) if v.get("discr") is not None else i for i, v in enumerate(st["variants"])}
+    text = ("field", ("field", SELF, "incoming"), "text")
+    probs, n = [], 0
+    for name in ("Established", "FinWait1", "FinWait2", "CloseWait"):
+        ctx.require(name in disc, "%s: State::%s not found" % (rule, name))
+        d = disc[name]
+        r = S.subst(t, lambda x: ("const", d) if x == ("discr", ("field", SELF, "state")) else None)
+        for _c, leaf in S.ok_paths(r, lambda x: True):
+            if leaf[0] in ("unreachable", "never", "stop"):
+                continue
+            n += 1
+            if not S.atoms(leaf, lambda y: y == text):
+                probs.append("in %s receive() returns %s instead of the text buffered in incoming.text: data accepted before the peer's FIN is never delivered" % (
+                    name, S.term_str(leaf)[:80]))
+    ctx.require(n >= 4, "%s: receive() has no returning path for some state" % rule)
+    (ctx.bad if probs else ctx.ok)(rule, "%s:Tcb::receive" % rule, b.span, "; ".join(probs[:2]) if probs else
+        "receive() hands over incoming.text in ESTABLISHED, FIN-WAIT-1, FIN-WAIT-2 and CLOSE-WAIT")
+
+
+def check_send(ctx, rule="T-SEND"):
+    """Tcb::send as a formula over the connection state (RFC 9293 3.10.2): before and in ESTABLISHED the bytes are
+    appended to the text waiting to be segmentised - after what is already there, unchanged."""
+    prog = ctx.prog()
+    b = prog.method("Tcb", "send")
+    try:
+        t, _ = S.extract(prog, b, effects=True)
+    except S.Unsupported as e:
+        ctx.require(False, "%s: cannot extract Tcb::send (%s)" % (rule, e))
+    SELF, MSG = S.params_of(b)[0], S.params_of(b)[1]
+    st = prog.adt("tcp::tcb::state::State")
+    disc = {v["name"]: int(v["discr"]) if v.get("discr") is not None else i for i, v in enumerate(st["variants"])}
+    text = ("field", ("field", SELF, "outgoing"), "text")
+    probs, n = [], 0
+    for name in ("SynSent", "SynReceived", "Established"):
+        d = disc[name]
+        r = S.subst(t, lambda x: ("const", d) if x == ("discr", ("field", SELF, "state")) else None)
+        leaves = []
+
+        def go(x):
+            if x[0] == "ite":
+                go(x[2]); go(x[3])
+            elif x[0] == "switch":
+                for _, y in x[2]:
+                    go(y)
+                go(x[3])
+            else:
+                leaves.append(x)
+        go(r)
+        for leaf in leaves:
+            if leaf[0] in ("unreachable", "never", "stop"):
+                continue
+            n += 1
+            fin = dict(leaf[2]).get(SELF) if leaf[0] == "state" else None
+            new_text = None
+            if fin is not None:
+                og = S.with_fields(fin)[1].get("outgoing")
+                if og is not None:
+                    new_text = S.with_fields(og)[1].get("text")
+            if new_text is None:
+                probs.append("in %s send() leaves outgoing.text as it was: the bytes are dropped" % name)
+            elif not (new_text[0] == "upd" and new_text[1].endswith("::concatenate") and new_text[3] == (text, MSG)):
+                probs.append("in %s send() sets outgoing.text to %s, not to the old text followed by the message" % (name, S.term_str(new_text)[:100]))
+    ctx.require(n >= 3, "%s: send() has no returning path for some state" % rule)
+    (ctx.bad if probs else ctx.ok)(rule, "%s:Tcb::send" % rule, b.span, "; ".join(probs[:2]) if probs else
+        "send() appends the message to outgoing.text in SYN-SENT, SYN-RECEIVED and ESTABLISHED")
+
+
+def check_accept(ctx, rule="T-ACCEPT"):
+    """The text-queueing step of process_segment as a formula (from the arm of the state match that accepts text to
+    the append): RCV.NXT advances by exactly the number of octets appended to incoming.text (slice end - slice start),
+    and the octets skipped at the front are measured from RCV.NXT - SEG.SEQ.  Acknowledging octets that were cut off
+    loses them for good: the sender drops them from its retransmission queue."""
+    prog = ctx.prog()
+    b = prog.method("Tcb", "process_segment")
+    g = cfg(b)
+    sl = [(bb, t) for bb, t in K.calls(b) if (F.callee_key(t) or "").endswith("message::{impl#0}::slice")]
+    cc = [(bb, t) for bb, t in K.calls(b) if (F.callee_key(t) or "").endswith("message::{impl#0}::concatenate")
+          and dep.has_field(dep.arg_origins(b, bb, 0), "Incoming", "text")]
+    ctx.require(len(cc) >= 1, "%s: no append to incoming.text in process_segment" % rule)
+    probs, n = [], 0
+    for cbb, ct in cc:
+        # nearest enclosing match on self.state
+        arm = None
+        for s_ in g.dom_chain(cbb):
+            if b.term(s_)[0] == "switch":
+                c = dep.switch_condition(b, s_)
+                if c and c["kind"] == "discr" and F.place_fields(c["place"]) and F.place_fields(c["place"])[-1][1] == "state":
+                    arm = s_
+                    break
+        ctx.require(arm is not None, "%s: the append to incoming.text is not under a match on the state" % rule)
+        starts = sorted({tg for _, tg in b.term(arm)[2] if g.dominates(tg, cbb)} | ({b.term(arm)[3]} if g.dominates(b.term(arm)[3], cbb) else set()))
+        ctx.require(len(starts) == 1, "%s: cannot find the arm that appends to incoming.text" % rule)
+        try:
+            t, _ = S.extract_from(prog, b, starts[0], effects=True, stop={b.term(cbb)[4]})
+        except S.Unsupported as e:
+            ctx.require(False, "%s: cannot extract the text-queueing step (%s)" % (rule, e))
+        SELF = ("local", 1)
+        for conds, log, leaf in S.paths(t):
+            pass
+        for leaf in _all_leaves(t):
+            if leaf[0] != "state" or leaf[1][0] != "stop":
+                continue
+            fin = dict(leaf[2]).get(SELF)
+            if fin is None:
+                continue
+            root, fs = S.with_fields(fin)
+            rcv = S.with_fields(fs["rcv"])[1] if "rcv" in fs else {}
+            inc = S.with_fields(fs["incoming"])[1] if "incoming" in fs else {}
+            new_text, new_nxt = inc.get("text"), rcv.get("nxt")
+            if new_text is None:
+                continue
+            n += 1
+            old_nxt = ("field", ("field", SELF, "rcv"), "nxt")
+            adv = S.lin(("bin", "Sub", new_nxt, old_nxt)) if new_nxt is not None else S.lin(("const", 0))
+            app = new_text[3][1] if new_text[0] == "upd" and new_text[1].endswith("::concatenate") and len(new_text[3]) == 2 else None
+            if app is None:
+                probs.append("incoming.text becomes %s, not the old text followed by the accepted octets" % S.term_str(new_text)[:100])
+                continue
+            if app[0] == "upd" and app[1].endswith("::slice") and len(app[3]) == 2 and app[3][1][0] == "agg" and len(app[3][1][2]) == 2:
+                lo, hi = app[3][1][2]
+                taken = S.lin(("bin", "Sub", hi, lo))
+                if taken != adv:
+                    probs.append("RCV.NXT advances by %s but %s octets are appended to incoming.text: octets that were cut off are acknowledged and never delivered (or delivered octets are not acknowledged)" % (
+                        S.lin_str(adv), S.lin_str(taken)))
+                if not S.atoms(lo, lambda y: y[0] == "call" and y[1].endswith("wrapping_sub") and S.atoms(y, lambda z: z == old_nxt)):
+                    probs.append("the octets skipped at the front of the segment are not measured from RCV.NXT - SEG.SEQ")
+            else:
+                probs.append("the octets appended are %s: not a slice of the segment text" % S.term_str(app)[:100])
+    ctx.require(n >= 1, "%s: no path appends to incoming.text" % rule)
+    (ctx.bad if probs else ctx.ok)(rule, "%s:process_segment" % rule, b.span, "; ".join(sorted(set(probs))[:2]) if probs else
+        "RCV.NXT advances by slice end - slice start of the text appended; the skipped prefix is RCV.NXT - SEG.SEQ")
+
+
+def _all_leaves(t):
+    if t[0] == "ite":
+        return _all_leaves(t[2]) + _all_leaves(t[3])
+    if t[0] == "switch":
+        out = []
+        for _, y in t[2]:
+            out += _all_leaves(y)
+        return out + _all_leaves(t[3])
+    return [t]
